@@ -7,6 +7,22 @@ ENGINES = [
 NOTES = "All checks: /venv/bin/python /verif/check.py <ID> --tier quick|thorough. They import wannierberri from /repo's working tree (no build step)."
 NOT_APPLICABLE = {}
 CHECKS = {
+ "C04": {"level": "exploration",
+         "technique": "exhaustive differential enumeration on the real evaluate_k/run(): k vs k+G over system x k x G alphabets; random_gauge on/off with the unitary source replaced by an enumerated alphabet",
+         "text": "8-11 systems x 7 k x 10 G for periodicity; 12-18 systems with exact degeneracies (planted point degeneracies of size 2 and 3, H0 (x) 1_m with generic external matrices, double_spin, KaneMele at TRIM points, k.p Dirac) x every combination of alphabet unitaries per multiplet (all cyclic offsets on fully degenerate grids) x 4 output classes; scipy.stats.unitary_group is replaced by the enumerated alphabet and the multiplets handed to it are checked against a chain-link model; 1134 / 1748 cases",
+         "note": "unitaries only from the alphabet (a generating set); exact degeneracies only; num_wann <= 4 (6); 2x2x2 grid; three formula sites (SHC qiao, InjectionCurrent, ShiftCurrent) are known findings"},
+ "C05": {"level": "exploration",
+         "technique": "exhaustive product of all permutations through System_R.reorder x alphabet rotations of co-centred blocks, differential against the untransformed system",
+         "text": "5-9 systems, all 2/6/24 permutations of the Wannier functions through the real reorder, 6 (4) alphabet unitaries per co-centred block applied to every R-matrix, warm/cold object history; evaluate_k with all tabulators at 3 k-points and run() on a 2x2x2 grid with ~35 static and dynamic calculators + TabulatorAll must equal the untransformed system; plus a reference model of the shift bookkeeping after reorder; 338 / 2672 cases",
+         "note": "num_wann <= 4; blocks of size 2 and 3; alphabet unitaries only; one grid and 3 k-points; tolerance 1e-8 of the array norm"},
+ "C22": {"level": "exploration",
+         "technique": "exhaustive enumeration of lattice x Monkhorst-Pack mesh x k-ordering through BKVectors.from_kpoints against a brute-force shell / integer neighbour reference",
+         "text": "full product of 15 lattices (8 zoo cells + hexagonal/tetragonal c/a families) x 8 meshes x 6 ordering families (thorough 24 x 15 x 6): completeness sum_b w b b^T = 1, integer multiset {b} = -{b} with equal weights, every selected length class equals the brute-force set of all mesh vectors of that length (box from Cauchy-Schwarz, independent of the code's), k+b = k_nb + G exactly in integers, shell choice independent of ordering",
+         "note": "cells with |a|~1 and no near-degenerate shell lengths, default tolerances, meshes <= 6^3, transpositions capped at 64 for NK > 64; a refusal of the shell search ('Could not find a complete set') is counted as no_solution, not a violation"},
+ "C23": {"level": "exploration",
+         "technique": "exhaustive enumeration of meshes x orderings x coordinate variants x single defects through get_mp_grid / grid_from_kpoints against an exact integer reference",
+         "text": "all 216 meshes with n_i <= 6, cubes to 12 (thorough 20), all 1D meshes to 100 (thorough: every mesh n_i <= 8); complete ordering alphabet (identity, reversal, all rotations, all adjacent transpositions) up to 36 (quick) / 216 (thorough) points; coordinate variants (+-1e-9, integer shifts); defects (point removed / duplicated / replaced / added, sub- and super-meshes): dimensions returned, each mesh point selected exactly once, incomplete meshes rejected",
+         "note": "defective lists keep coordinates in [0,1); off-mesh points far from the 1e-5 threshold; +-1e-9 perturbations only up to n=20; rejection is the documented ValueError"},
  "C24": {"level": "exploration",
          "technique": "exhaustive small-scope enumeration of frozen x outer window pairs x init x iterations on the real wannierise, against a reference selection model",
          "text": "all frozen x outer window pairs over a complete edge alphabet (including edges cutting engineered multiplets of 2 and 3) x init mode (amn, random, restart, restart without windows) x num_iter x localise x mix_ratio_z, plus explicit frozen_states, on synthetic in-memory Wannier90 data generated from a hidden tight-binding model; at every k: V^dagger V = 1, every reference-frozen band fully in the span, zero rows outside the outer selection (1e-10)",
